@@ -1,4 +1,4 @@
-use fr_core::{exec, flushrace, narrate, prog, props, teardown};
+use fr_core::{bgdeliver, exec, flushrace, narrate, prog, props, teardown};
 
 use std::collections::{BTreeMap, HashSet};
 use std::io::Write;
@@ -70,6 +70,9 @@ fn worker(args: &[String]) -> i32 {
     }
     if variant == "flushrace" {
         return flushrace_worker(prop, seed, wid, cases, out, &known);
+    }
+    if variant == "bgdeliver" || variant == "bgdeliver25" {
+        return bgdeliver_worker(prop, variant, seed, wid, cases, out, &known);
     }
     let spec = match props::spec(prop, variant, cancelable, thorough) {
         Some(s) => s,
@@ -243,6 +246,82 @@ fn flushrace_worker(prop: &str, seed: u64, wid: u64, cases: u32, out: &str, know
     0
 }
 
+/// a "not delivered" verdict is believed only when it reproduces three times out of three
+fn bg_run_believed(c: &bgdeliver::BgCase, flickers: &mut u64) -> bgdeliver::BgOutcome {
+    let o = bgdeliver::run(c);
+    if o.violations.is_empty() {
+        return o;
+    }
+    for _ in 0..2 {
+        let again = bgdeliver::run(c);
+        if again.violations.is_empty() {
+            *flickers += 1;
+            return again;
+        }
+    }
+    o
+}
+
+fn bgdeliver_worker(prop: &str, variant: &str, seed: u64, wid: u64, cases: u32, out: &str, known: &[String]) -> i32 {
+    quiet_panics();
+    let interval_ms = if variant == "bgdeliver25" { 25 } else { 0 };
+    bgdeliver::install(interval_ms);
+    let strategy = bgdeliver::strategy();
+    let cfg = Config { cases, failure_persistence: None, max_shrink_iters: 40, ..Config::default() };
+    let mut runner = TestRunner::new_with_rng(cfg, TestRng::from_seed(RngAlgorithm::ChaCha, &seed_bytes(seed, wid, variant)));
+    let start = std::time::Instant::now();
+    // evaluations, hashes, samples, failed, flickers, latencies, exits, expected
+    let st = std::cell::RefCell::new((0u64, HashSet::<u64>::new(), Vec::<serde_json::Value>::new(), false, 0u64, Vec::<u64>::new(), 0u64, 0u64));
+    let res = runner.run(&strategy, |c| {
+        let mut s = st.borrow_mut();
+        let mut fl = 0;
+        let o = bg_run_believed(&c, &mut fl);
+        s.4 += fl;
+        if !s.3 {
+            s.0 += 1;
+            s.5.extend(o.latencies_ns.iter().cloned());
+            s.6 += o.exits as u64;
+            s.7 += o.expected as u64;
+            use std::hash::{Hash, Hasher};
+            let mut h = std::collections::hash_map::DefaultHasher::new();
+            format!("{:?}", c).hash(&mut h);
+            if s.1.insert(h.finish()) && s.2.len() < 3 {
+                s.2.push(serde_json::to_value(&c).unwrap());
+            }
+        }
+        match o.violations.iter().find(|(sig, _)| !known.contains(sig)) {
+            None => Ok(()),
+            Some((sig, _)) => {
+                s.3 = true;
+                Err(TestCaseError::fail(sig.clone()))
+            }
+        }
+    });
+    let mut s = st.into_inner();
+    let mut failure = serde_json::Value::Null;
+    if let Err(TestError::Fail(reason, c)) = &res {
+        let o = bgdeliver::run(c);
+        failure = json!({"signature": reason.to_string(), "program": c, "violations": o.violations.iter().map(|(sig, m)| json!({"sig": sig, "msg": m})).collect::<Vec<_>>()});
+    }
+    let mut nt: Vec<u64> = s.1.iter().cloned().collect();
+    nt.sort();
+    s.5.sort();
+    let pct = |q: f64| -> u64 { if s.5.is_empty() { 0 } else { s.5[((s.5.len() - 1) as f64 * q) as usize] / 1000 } };
+    let res = json!({
+        "property": prop, "variant": variant, "cancelable": false, "seed": seed, "worker": wid,
+        "evaluations": s.0, "nontrivial_hashes": nt.iter().map(|h| format!("{:016x}", h)).collect::<Vec<_>>(),
+        "labels": {"no_flush_case": s.0, "no_flush_records_expected": s.7, "no_flush_threads_exiting_after_finish": s.6,
+                   "no_flush_verdict_not_reproduced": s.4,
+                   format!("no_flush_latency_us_p50_{}", variant): pct(0.5), format!("no_flush_latency_us_p99_{}", variant): pct(0.99), format!("no_flush_latency_us_max_{}", variant): pct(1.0)},
+        "excluded": {}, "known_hits": {}, "samples": s.2,
+        "records_delivered": s.5.len(), "ops_executed": 0, "ops_skipped": 0, "failure": failure,
+        "rule": "no further call needed: real set_reporter (Config::default(), or report_interval 25 ms), real background collector thread, 1-3 plain OS threads finish generated spans (whole traces, handed-off children, two-parent spans, local scopes) with generated pauses, half of them exit directly after their last finish; nobody calls flush(); oracle: every finished span is reported (once per parent) within 5 s (believed only when reproduced 3 of 3), never twice, nothing unknown; every case is non-trivial (>=1 span finished without a later call); distinct = hash of the case; latencies finish->report are reported as labels (microseconds), not judged",
+        "wall_s": start.elapsed().as_secs_f64(),
+    });
+    std::fs::File::create(out).unwrap().write_all(serde_json::to_string(&res).unwrap().as_bytes()).unwrap();
+    0
+}
+
 fn teardown_worker(args: &[String], seed: u64, wid: u64, cases: u32, out: &str, known: &[String]) -> i32 {
     let _ = args;
     quiet_panics();
@@ -329,6 +408,16 @@ fn replay(args: &[String]) -> i32 {
         }
         println!("{}", serde_json::to_string_pretty(&json!({"violations": fails.iter().map(|f| json!({"sig": sig, "msg": f})).collect::<Vec<_>>(), "narrative": []})).unwrap());
         return if fails.is_empty() { 0 } else { 1 };
+    }
+    if v["variant"].as_str().map_or(false, |s| s.starts_with("bgdeliver")) {
+        quiet_panics();
+        bgdeliver::install(if v["variant"].as_str() == Some("bgdeliver25") { 25 } else { 0 });
+        let c: bgdeliver::BgCase = serde_json::from_value(v["program"].clone()).expect("bgdeliver case");
+        let mut fl = 0;
+        let o = bg_run_believed(&c, &mut fl);
+        println!("{}", serde_json::to_string_pretty(&json!({"violations": o.violations.iter().map(|(sig, m)| json!({"sig": sig, "msg": m})).collect::<Vec<_>>(),
+            "narrative": [format!("{} records expected, latencies (us): {:?}", o.expected, o.latencies_ns.iter().map(|n| n / 1000).collect::<Vec<_>>())]})).unwrap());
+        return if o.violations.is_empty() { 0 } else { 1 };
     }
     if v["variant"].as_str() == Some("teardown") {
         quiet_panics();
